@@ -100,7 +100,7 @@ def example_schemas() -> dict[str, dict[int, dict[str, list[str]]]]:
 class Quarter:
     """The state after an accepted ceremony: its SKR file, its quarter number, the ZSK generation."""
 
-    def __init__(self, skr_xml: bytes | None, q: int, path: tuple[str, ...], last_exp: datetime, req_id: str = "req-q0", parent_xml: bytes | None = None) -> None:
+    def __init__(self, skr_xml: bytes | None, q: int, path: tuple[str, ...], last_exp: datetime, req_id: str = "req-q0", parent_xml: bytes | None = None, ksr_xml: str | None = None) -> None:
         self.skr_xml = skr_xml
         self.q = q
         self.path = path
@@ -111,14 +111,26 @@ class Quarter:
         self.serial = 1
         self.bundle_ids: list[str] = []
         if skr_xml is not None:
+            import re
             import xml.etree.ElementTree as ET
 
             try:
                 root = ET.fromstring(skr_xml)
                 self.serial = int(root.get("serial"))
                 self.bundle_ids = [b.get("id") for b in root.find("Response").findall("ResponseBundle")]
-            except Exception:  # noqa: BLE001  (an unreadable SKR is reported by judge_written)
-                pass
+            except Exception:  # noqa: BLE001  (an unreadable SKR is reported by judge_written; a KSR that is not well-formed XML is answered by an SKR that is not)
+                m = re.search(rb'<KSR [^>]*serial="(\d+)"', skr_xml)
+                if m:
+                    self.serial = int(m.group(1))
+        if ksr_xml is not None:
+            # "re-using the request id / a bundle id of the previous ceremony" means the text the previous KSR carried, exactly as it
+            # stood in that file (what an operator's client would send again): the RAW attribute text of the KSR that was answered.
+            # That the SKR shows the same ids — as the tools read both — is judge_written's echo oracle.
+            rid, bids = R.raw_ids(ksr_xml)
+            if rid is not None:
+                self.req_id = rid
+            if bids:
+                self.bundle_ids = bids
 
     def routine(self) -> bool:
         """Every ceremony on the way here followed the 'normal' schema."""
@@ -177,6 +189,8 @@ def neighbour_broken(prev_xml: bytes, ksr_req: Any, new_xml: bytes) -> list[str]
     a = ET.fromstring(prev_xml)
     b = ET.fromstring(new_xml)
     bad = []
+    if R.raw_ids(prev_xml.decode("utf-8", "replace"))[0] == R.raw_ids(new_xml.decode("utf-8", "replace"))[0]:
+        bad.append("request id reused (same raw text in both files)")
     ab = a.find("Response").findall("ResponseBundle")
     bb = b.find("Response").findall("ResponseBundle")
 
@@ -200,10 +214,16 @@ def neighbour_broken(prev_xml: bytes, ksr_req: Any, new_xml: bytes) -> list[str]
     return bad
 
 
-def judge_written(res: Result, work: Path, o: dict[str, Any], case: dict[str, Any], sc: S.Scenario, ksr_xml: str | None, prev_skr: bytes | None, variant: str) -> None:
-    """Every emitted SKR: loadable as the next previous SKR, exactly one SKR document acceptable to an independent validator,
-    and a neighbour of the SKR before it."""
+def judge_written(res: Result, work: Path, o: dict[str, Any], case: dict[str, Any], sc: S.Scenario, ksr_xml: str | None, prev_skr: bytes | None, variant: str, text: R.Text | None = None) -> None:
+    """Every emitted SKR: loadable as the next previous SKR, an exact echo of the KSR it answers (as the tools' own reader reads
+    both), exactly one SKR document acceptable to an independent validator, and a neighbour of the SKR before it.
+    text: how the history is spelled.  Texts with references (R.XML_TEXT_PROFILES) are shown differently by a standard parser
+    than by the repository's reader (which hands them over verbatim): the two readings are then compared after this harness's
+    own resolution of references; a history whose KSRs are not well-formed XML (a bare `&`, accepted verbatim by the reader) is
+    answered by SKRs that are not either: the ElementTree judges cannot read those files, the echo / reload / byte-for-byte
+    oracles alone decide (counted)."""
     from kskm.common.config_misc import ResponsePolicy
+    from kskm.ksr.load import request_from_xml
     from kskm.skr.load import load_skr
 
     new_xml = o["file_after"]
@@ -212,18 +232,38 @@ def judge_written(res: Result, work: Path, o: dict[str, Any], case: dict[str, An
     rl = lib.run_impl(lambda: load_skr(p, ResponsePolicy(num_bundles=9)))
     if "ok" not in rl:
         res.violation("an emitted SKR is not loadable as a previous SKR", case, key="reload", outcome=rl, bytes_at_output_path=len(new_xml), bytes_there_before=None if o.get("preexisting") is None else len(o["preexisting"]))
-    bad = R.skr_problems(new_xml, num_bundles=9, roles=R.roles_of(sc), request_xml=ksr_xml if ksr_xml is not None else C.request_to_xml(sc.request()))
+    request_text = ksr_xml if ksr_xml is not None else C.request_to_xml(sc.request())
+    try:
+        repo_reading = R.canon_written(new_xml)
+    except Exception:  # noqa: BLE001
+        repo_reading = None
+    # the echo, as the tools' own reader reads request and response (ids, serial, domain, bundle ids, ZSK identifiers and keys)
+    asked = lib.run_impl(lambda: request_from_xml(request_text), lib.request_j)
+    if "ok" in asked and not case.get("variant", "").endswith("other-domain"):
+        d = R.echo_mismatch(asked["ok"], repo_reading)
+        res.bump("emitted SKR: echo of the KSR as the repository's reader reads both")
+        if d:
+            res.violation("an emitted SKR does not echo the KSR it answers (the next ceremony compares a new KSR's ids with what this SKR shows)", case, key="echo:" + variant, first_difference=d)
+    wellformed = text is None or text.wellformed
+    if not wellformed:
+        # nothing a standard parser can read went in, nothing it can read comes out (witnessed, not assumed)
+        import xml.etree.ElementTree as ET
+
+        try:
+            ET.fromstring(request_text)
+            res.violation("harness: a profile declared not well-formed produced a well-formed KSR", case, key="profile:" + text.name)
+        except ET.ParseError:
+            res.bump("emitted SKR for a KSR that is not well-formed XML: judged by reload / echo / bytes only")
+        return
+    bad = R.skr_problems(new_xml, num_bundles=9, roles=R.roles_of(sc), request_xml=request_text)
     if bad:
         res.violation("an emitted SKR is rejected by the independent validator (whole file, ElementTree + dnspython)", case, key="independent:" + variant, problems=bad[:6])
     if "ok" in rl and not (bad and bad[0].startswith("not one well-formed")):
-        try:
-            repo_reading = R.canon_written(new_xml)
-        except Exception:  # noqa: BLE001
-            repo_reading = None
-        d = R.reader_mismatch(new_xml, repo_reading)
+        refs = text is not None and text.references
+        d = R.reader_mismatch(new_xml, repo_reading, references=refs)
         if d:
             res.violation("an emitted SKR reads differently with the repository's loader than with a standard XML parser (the next ceremony will not see what was written)", case, key="reader:" + variant, first_difference=d)
-        res.bump("emitted SKR: loader reading == XML reading")
+        res.bump("emitted SKR: loader reading == XML reading" + (" (references resolved)" if refs else ""))
     if prev_skr is not None and not (bad and bad[0].startswith("not one well-formed")):
         broken = neighbour_broken(prev_skr, sc.request(), new_xml)
         if broken:
